@@ -386,7 +386,7 @@ pub fn property() -> Property {
     Property {
         id: "C11",
         level: "exploration",
-        rule: "multi-replica histories (every op kind, up to 4 ops per transaction incl. insert-then-delete of the same element, nested types in arrays/maps/XML, both offset kinds, GC on/off) with observe and observe_deep on the four root types of one generated replica; a shadow document is updated ONLY by applying the reported text deltas (retain/insert/delete counted in the configured unit and required to fall on unit boundaries), array/XML change lists and map/attribute key changes (Inserted requires absence, Updated/Removed require the reported old value to be what the observer saw), located by path(); new nested values are read at callback time.  After every local or remote transaction on that replica: shadow == canonical dump, each observer fired at most once, observe() fired iff the deep observer saw an event for the root itself, and (local / per-update remote transactions) only roots addressed by the transaction's operations fired.  Non-trivial = a remote transaction produced events or a local transaction with >=3 ops did; distinct = distinct generated case".into(),
+        rule: "multi-replica histories (every op kind, up to 4 ops per transaction incl. insert-then-delete of the same element, nested types in arrays/maps/XML, both offset kinds, GC on/off, automatic format clean-up on the observed replica on/off) with observe and observe_deep on the four root types of one generated replica; a shadow document is updated ONLY by applying the reported text deltas (retain/insert/delete counted in the configured unit and required to fall on unit boundaries), array/XML change lists and map/attribute key changes (Inserted requires absence, Updated/Removed require the reported old value to be what the observer saw), located by path(); new nested values are read at callback time.  After every local or remote transaction on that replica: shadow == canonical dump, each observer fired at most once, observe() fired iff the deep observer saw an event for the root itself, and (local / per-update remote transactions) only roots addressed by the transaction's operations fired.  Non-trivial = a remote transaction produced events or a local transaction with >=3 ops did; distinct = distinct generated case".into(),
         assumptions: vec![
             "shared types embedded into text are excluded (their path segment is not an element index)".into(),
             "an event with an empty script on an addressed type is tolerated and counted (DESIGN section 7)".into(),
